@@ -174,11 +174,13 @@ class Rational(Primitive):
     ) -> "Rational":
         if isinstance(right, Rational):
             try:
-                result = impl(self._value, right._value)
+                return Rational(impl(self._value, right._value))
             except ZeroDivisionError:
                 raise _any.InvalidOperandError("Cannot divide %s by zero" % self._value) from None
-            else:
-                return Rational(result)
+            except (OverflowError, ValueError):
+                # E.g., a fractional power of a negative number (complex), or a fractional power that is
+                # evaluated in floating point and overflows.
+                raise _any.InvalidOperandError("The result of the operator is not a finite real number") from None
         else:
             raise _any.UndefinedOperatorError
 
